@@ -16,6 +16,7 @@ CONSTANTS
   SyncStarts = {0, 2}
   SyncEnds = {0}
   CapZeroUnbounded = TRUE
+  LastUncapped = TRUE
 VIEW View
 INVARIANTS TypeOK C10_PhysBound
 PROPERTIES C10_ReadWindow C10_Monotone C10_TrimCovered
